@@ -51,6 +51,8 @@ struct thr {
     int started, finished;
     char last[96];          /* operation performed by the last step */
     size_t lastval;
+    char done[256];         /* completion records since the last printed line */
+    size_t donelen;
 };
 
 static struct thr T[MAXT];
@@ -277,6 +279,24 @@ static void run_op(struct thr * t, const struct op * o)
     }
 }
 
+/* is the operation's target object non-NULL? (peeks at the thread's own object) */
+static int target_set(const struct thr * t, const struct op * o)
+{
+    switch (o->k) {
+    case O_SHARE:
+    case O_LOCK:
+        return o->b < t->ns && t->s[o->b].data.ptr != NULL;
+    case O_RESET:
+    case O_USE:
+        return o->a < t->ns && t->s[o->a].data.ptr != NULL;
+    case O_WFROM:
+        return o->b < t->nw && t->w[o->b].data.ptr != NULL;
+    case O_WRESET:
+        return o->a < t->nw && t->w[o->a].data.ptr != NULL;
+    }
+    return 0;
+}
+
 static void thread_main(void)
 {
     struct thr * t;
@@ -284,7 +304,13 @@ static void thread_main(void)
     FIBER_FINISH(NULL, &main_bottom, &main_size);
     t = &T[cur];
     for (i = 0; i < t->nops; i++) {
+        int n;
         run_op(t, &t->ops[i]);
+        n = snprintf(t->done + t->donelen, sizeof(t->done) - t->donelen, "%s%d.%d:%d",
+                     t->donelen ? "," : "", cur, i, target_set(t, &t->ops[i]));
+        if (n > 0 && t->donelen + (size_t)n < sizeof(t->done)) {
+            t->donelen += (size_t)n;
+        }
     }
     t->finished = 1;
     to_main(1);
@@ -362,6 +388,23 @@ static void out_events(void)
     out_bits(fin, nthr);
 }
 
+static void out_done(int from, int to)
+{
+    int t, any = 0;
+    outf(" | done=");
+    for (t = from; t < to; t++) {
+        if (T[t].donelen) {
+            outf("%s%s", any ? "," : "", T[t].done);
+            any = 1;
+            T[t].donelen = 0;
+            T[t].done[0] = 0;
+        }
+    }
+    if (!any) {
+        outf("-");
+    }
+}
+
 /* build the initial reference configuration sequentially, like a program
  * would before it starts its threads */
 static void setup(void)
@@ -425,6 +468,7 @@ static void a_op(int argc, char ** argv)
         }
         outf("ok");
         out_events();
+        out_done(0, nthr);
         out_end();
     } else if (strcmp(argv[0], "sched") == 0 && argc == 2 && started) {
         int t = atoi(argv[1]);
@@ -440,6 +484,7 @@ static void a_op(int argc, char ** argv)
             outf("%d %s %zu", t, T[t].last[0] ? T[t].last : "?", T[t].lastval);
         }
         out_events();
+        out_done(t, t + 1);
         out_end();
     } else if (strcmp(argv[0], "end") == 0 && argc == 1 && started) {
         int t, i;
